@@ -4,7 +4,7 @@ import math
 
 import z3
 
-from .symex import (Ctx, SReal, SInt, SBool, rv, is_sym, sceil, sfloor, ssqrt, smax, smin, decide, Unsupported)
+from .symex import (Ctx, SReal, SInt, SBool, rv, is_sym, sceil, sfloor, ssqrt, SNaN, smax, smin, decide, Unsupported)
 
 R = z3.RealSort()
 
@@ -108,6 +108,8 @@ class MathNP:
 
     @staticmethod
     def log(v):
+        if isinstance(v, SNaN):
+            return v
         if not is_sym(v):
             return math.log(v)
         _anchor(LOGEXP, 1, 0)
@@ -115,6 +117,8 @@ class MathNP:
 
     @staticmethod
     def exp(v):
+        if isinstance(v, SNaN):
+            return v
         if not is_sym(v):
             return math.exp(v)
         _anchor(LOGEXP, 1, 0)
@@ -154,18 +158,24 @@ class MathNP:
 
     @staticmethod
     def sqrt(v):
+        if isinstance(v, SNaN):
+            return v
         if not is_sym(v):
             return math.sqrt(v)
         return ssqrt(v)
 
     @staticmethod
     def ceil(v):
+        if isinstance(v, SNaN):
+            return v
         if not is_sym(v):
             return math.ceil(v)
         return sceil(v)
 
     @staticmethod
     def floor(v):
+        if isinstance(v, SNaN):
+            return v
         if not is_sym(v):
             return math.floor(v)
         return sfloor(v)
